@@ -196,12 +196,14 @@ type RunOpts struct {
 	WantModel  bool
 	Trace      bool
 	Thorough   bool
+	SlowMs     int
 }
 
 // RunPath executes harness fn following prefix.
 func (p *Program) RunPath(fn *ssa.Function, prefix []int, proc *smt.Proc, mirrors []*smt.Proc, opts RunOpts) (res PathResult) {
 	ctx := smt.NewCtx()
 	sess := smt.NewSession(ctx, proc, mirrors)
+	sess.SlowMs = opts.SlowMs
 	m := &Machine{C: ctx, S: sess, Prefix: append([]int{}, prefix...), StepBudget: opts.StepBudget,
 		names: map[string]int{}, Choices: map[string]int{}, Known: opts.Known, CrossCheck: opts.CrossCheck,
 		Funcs: map[string]int{}, Stubs: map[string]int{}, Ghost: map[string]value{}, Thorough: opts.Thorough}
@@ -283,6 +285,7 @@ func (p *Program) RunPath(fn *ssa.Function, prefix []int, proc *smt.Proc, mirror
 	if fn.Pkg != nil {
 		call(i, nil, token.NoPos, fn.Pkg.Func("init"), nil)
 	}
+	i.inHarness = true
 	call(i, nil, token.NoPos, fn, nil)
 	return
 }
